@@ -414,9 +414,14 @@ class Gen:
         cands = self.can_parent(m)
         if not cands:
             return None
-        n_in = self.r.randint(1, min(4, len(cands)))
-        # prefer inputs of the same polarity
+        n_in = min(self.r.wpick([(1, 2), (2, 4), (3, 2.5), (4, 1.5)]), len(cands))
         ins = self.r.sample(cands, n_in)
+        deep = [c for c in cands if m.depth(c) >= 2]
+        if deep and n_in >= 2 and self.r.chance(0.7):
+            # at least one input at the end of a chain (source -> a -> b -> mux)
+            d = self.r.pick(deep)
+            if d not in ins:
+                ins[self.r.randint(0, n_in - 1)] = d
         spec = self.comp("PMux", m, self.vnom(m, ins[0]))
         self.mux_rs(spec, len(ins))
         parent = [self.parent_ref(m, i) for i in ins]
@@ -491,16 +496,22 @@ class Gen:
         n = self.r.pick(cands)
         dc = True if m.kind(n) == "Source" else self.r.chance(0.5)
         mux = m.mux()
-        if mux is not None and self.r.chance(0.3):
-            # remove a link of a chain that leads into the mux, keeping what is below
+        if mux is not None and self.r.chance(0.4):
+            # remove links of a chain that leads into the mux, keeping what is
+            # below: one link, or two successive links top-down
             chain = [a for i in m.parents[mux] for a in ([i] + m.ancestors(i)) if m.kind(a) != "Source"]
-            if chain:
+            pairs = [(a, b) for a in chain for b in m.children(a) if b in chain]
+            direct = [(a, b) for a, b in pairs if mux in m.children(b) and len(m.parents[mux]) > 1]
+            if direct and self.r.chance(0.8):
+                pairs = direct
+            if pairs and self.r.chance(0.6):
+                a, b = self.r.pick(pairs)
+                n, dc = a, False
+                if not m.del_ambiguous(a, False):
+                    self.pending.append({"op": "del_comp", "name": b, "del_childs": False})
+            elif chain:
                 n = self.r.pick(chain)
                 dc = False
-                below = [c for c in m.children(n) if c in chain and c != mux]
-                if below and self.r.chance(0.6):
-                    # ... and then the next link of the same chain, top-down
-                    self.pending.append({"op": "del_comp", "name": below[0], "del_childs": False})
         if m.del_ambiguous(n, dc):
             dc = True
         return {"op": "del_comp", "name": n, "del_childs": dc}
